@@ -32,6 +32,15 @@ MSG = P + "::jsont::Message"
 REPL = P + "::util::Replacer"
 
 
+def Wr_const(eb, rv):
+    """constant operand of a binary rvalue, if any"""
+    for k_ in ("a", "b"):
+        v_ = W.const_val(eb.operand(rv[k_]))
+        if v_ is not None:
+            return v_
+    return None
+
+
 def sink_fn(facts, adt, m):
     return facts.fn("<%s as %s>::%s" % (adt, SINK, m))
 
@@ -300,6 +309,46 @@ def run(ctx):
             r.ok("Replacer|clear", "Replacer::clear clears dst and matches", fn=rc)
         else:
             r.bad("Replacer|clear", "Replacer::clear no longer clears both dst and matches", fn=rc, construct="clear")
+        # JSONSink::context recomputes the match spans of the context line (they are the submatches of an inverted search)
+        jc = sink_fn(facts, JS, "context")
+        rm_ = jc.calls_to(JS + "::record_matches")
+        smn = [c for c in jc.calls() if c.path.endswith("SubMatches::new")]
+        if rm_ and smn and C.dominates(jc, rm_[0].bb, smn[0].bb):
+            r.ok("json|context|record", "JSONSink::context: record_matches before the submatches are built", fn=jc)
+        else:
+            r.bad("json|context|record", "JSONSink::context builds the submatches of a context line without re-discovering its matches "
+                  "(stale or empty spans)", fn=jc, construct="json-context")
+        # replace_all itself starts from empty buffers: the sinks do not call Replacer::clear between two lines of one file
+        ra = facts.fn(REPL + "::replace_all")
+        ebra = ExprBuilder(ra)
+        rw = [c for c in ra.calls() if c.path.endswith("replace_with_captures_in_context")]
+        clears = [c for c in ra.calls() if c.path.endswith("Vec::clear")]
+        dom = [c for c in clears if rw and C.dominates(ra, c.bb, rw[0].bb)]
+        if rw and len(dom) >= 2:
+            r.ok("Replacer|replace_all", "replace_all empties dst and matches before it fills them", fn=ra)
+        else:
+            r.bad("Replacer|replace_all", "Replacer::replace_all appends to what the previous line left in dst / matches (%d of 2 clears "
+                  "before the replacement): with -r every later line is printed with the earlier lines' replacements in front" % len(dom),
+                  fn=ra, construct="replace_all")
+        # trim_line_terminator removes exactly the terminator: one byte, and under CRLF also a preceding CR — if it is a CR
+        tl = facts.fn(P + "::util::trim_line_terminator")
+        ebt = ExprBuilder(tl)
+        crsw = cond_switches(tl, lambda e: any(x.k == "const" and (x[1] == 13 or "13_u8" in str(x[2]) or "\\r" in str(x[2])) for x in walk(e)) and
+                             (is_call(e, "core::cmp::PartialEq::eq") or (e.k == "bin" and e[1] == "Eq")), ebt)
+        crlfsw = cond_switches(tl, lambda e: is_call(e, "grep_matcher::LineTerminator::is_crlf"), ebt)
+        sufsw = cond_switches(tl, lambda e: is_call(e, "grep_matcher::LineTerminator::is_suffix"), ebt)
+        subs = [bb for bb, j_, st in tl.stmts() if st["k"] == "assign" and st["rv"]["k"] == "bin" and st["rv"]["op"] in ("Sub", "SubWithOverflow")
+                and Wr_const(ebt, st["rv"]) == 1]
+        if sufsw and crlfsw and crsw and len(subs) >= 2:
+            second = [b_ for b_ in subs if not guarded(tl, [b_], crsw, True) and not guarded(tl, [b_], crlfsw, True)]
+            if second:
+                r.ok("trim|definition", "terminator present ⇒ minus one byte; CRLF ∧ preceding byte == CR ⇒ minus one more", fn=tl)
+            else:
+                r.bad("trim|definition", "trim_line_terminator removes a second byte outside the `is_crlf() ∧ byte == \\r` case: the last "
+                      "content byte of a line is cut off (or the CR is left on)", fn=tl, construct="trim_line_terminator")
+        else:
+            r.bad("trim|definition", "anchor-missing: trim_line_terminator no longer has the shape suffix-test / CRLF test / CR test", fn=tl,
+                  construct="trim_line_terminator")
         # readers
         READS = {
             (STD, "matched"): ([STD + "::record_matches"], [STD + "::replace"], P + "::standard::StandardImpl::from_match"),
